@@ -40,9 +40,41 @@ def encodable(arcs):
     return B.arc_b128(arcs[0] * 40 + arcs[1]) + b"".join(B.arc_b128(a) for a in arcs[2:])
 
 
+PREFIXES = ["1.3.6.1.2.1", "1.3.6.1.4.1", "1.3.6.1.6.3", "1.3.6.1.2.1.1", "1.3.6.1.2.1.2.2.1", "1.3.6.1.4.1.9", "1.3.6.1.4.1.2636",
+            "1.0.8802.1.1.2", "1.2.840.10006.300.43", "1.3.111.2.802.1", "2.16.840.1.113883", "0.9.2342.19200300", "0.0", "1.3", "2.5.4"]
+
+
+def gen_prefixed(rng):
+    """Real-world prefixes followed by arbitrary arcs, then (half of the time) one or two character-level edits: code
+    that looks at the *text* of a well-known prefix instead of its arcs goes wrong exactly on these neighbours
+    (1.3.6.1.2.1 -> 1.3.6.1.2.10, 1.3.6.1.4.1 -> 1.3.6.1.4.127, ...)."""
+    s = rng.choice(PREFIXES)
+    for _ in range(rng.choice([0, 0, 1, 2, 3, 6])):
+        s += ".%d" % M.gen_arc(rng)
+    if rng.random() < 0.5:
+        return s, "valid:prefix"
+    for _ in range(rng.choice([1, 1, 2])):
+        i = rng.randrange(len(s) + 1)
+        k = rng.randrange(5)
+        if k == 0:
+            s = s[:i] + rng.choice("0123456789") + s[i:]
+        elif k == 1 and i < len(s):
+            s = s[:i] + s[i + 1:]
+        elif k == 2 and i < len(s):
+            s = s[:i] + s[i] + s[i:]
+        elif k == 3 and i < len(s) and s[i].isdigit():
+            s = s[:i] + rng.choice("0123456789") + s[i + 1:]
+        else:
+            j = s.rfind(".", 0, i) + 1
+            s = s[:j] + rng.choice(["1", "10", "12", "127", "128", "16383", "16384"]) + s[s.find(".", j) if s.find(".", j) >= 0 else len(s):]
+    return s, "mutated-prefix"
+
+
 def gen_string(rng):
     """-> (string, class)"""
     r = rng.random()
+    if r > 0.85:
+        return gen_prefixed(rng)
     if r < 0.45:
         n = rng.choice([2, 2, 3, 5, 9, 14, 40, 128, rng.randint(2, 128)])
         o = M.gen_oid(rng, n, n)
@@ -129,6 +161,9 @@ def judge(s, parsed_ok, content, rendered):
         d = denotation(s)
         return ("wrong-oid", "%r (denoting %s) was encoded as %s = %s" % (
             s[:60], B.oid_text(d)[:60], content.hex()[:40], _safe_text(content)))
+    if rendered is not None and denotation(rendered) != denotation(s):
+        # accepted beyond what must be accepted (e.g. 2.999): still the same OID when printed back
+        return ("print", "%r was accepted and sent as %s but is printed back as %r" % (s[:60], content.hex()[:40], rendered[:60]))
     return None
 
 
